@@ -130,6 +130,13 @@ class Task(NamedUIDObject):
             resource = resource.get_select_workers()
 
         if isinstance(resource, SelectWorkers):
+            # a worker already required by this task cannot also be an alternative: its
+            # busy interval for this task would be overwritten
+            for worker in resource.list_of_workers:
+                if worker in self._required_resources:
+                    raise ValueError(
+                        f"resource {worker.name} already defined as a required resource for task {self.name}"
+                    )
             # loop over each resource
             for worker in resource.list_of_workers:
                 if isinstance(worker, CumulativeWorker):
